@@ -5,18 +5,18 @@ CONSTANTS
   RoundMode = "floor"
   SelectMode = "det"
   LegacyBreak = FALSE
-  MetricDefs <- BudMetrics
-  SlotDefs <- BudSlots5
-  Sizes <- Sz13
+  MetricDefs <- FixMetrics
+  SlotDefs <- FixSlots
+  Sizes <- Sz345
   WWs = {1}
-  MWs = {1}
+  MWs = {1, 2}
   NWs = {1}
   GWs = {1}
-  Buds = {0, 2, 5}
-  BudAllowed <- AllMetrics
+  Buds = {0, 2}
+  BudAllowed <- OnlyMetric1
   NSAs = {FALSE}
-  OptSets <- OptsBud
-  Budgets = {4}
+  OptSets <- OptsBudOnly
+  Budgets = {10, 15}
 VIEW MCView
 INVARIANTS TypeOK AtMostOnce ExactlyOnce Unbiased KeptRowsFactorGE1 NoSampleAgentKept SameFactorInLeaf FitsNothingSampled FairShare FixedWithinBudget FairShareRemaining FitIsJustified Monotone KeptWithinBudget QuotaWithinTotal QuotaProportional QuotaFitIsSize QuotaWithinTotalAnyRounding MustMatchesMechanism ExportDone
 CHECK_DEADLOCK FALSE
